@@ -34,11 +34,12 @@ Theorem C13_power_is_stake : forall cap chain dlg vals vs,
 Proof. exact members_power. Qed.
 Print Assumptions C13_power_is_stake.
 
-(* The threshold is floor(2T/3)+1 of the exact total, for totals below 2^63 (above, the Go expression
-   wraps: minimumMaj23_wraps, observation O-1). Proved over the *generated* Extracted.minimumMaj23. *)
+(* The threshold is floor(2T/3)+1 of the exact total, for every total that fits in 64 bits. Proved over the
+   *generated* Extracted.minimumMaj23 (lib/consensus.go). Before the repair recorded in KNOWN_FINDINGS.txt the Go
+   expression was (2*T)/3+1 and wrapped for T >= 2^63 (minimumMaj23 2^63 evaluated to 1). *)
 Theorem C13_threshold : forall cap chain dlg vals vs,
   get_validator_set cap chain dlg vals = Some vs ->
-  sum_exact (committee_list cap chain dlg vals) < 9223372036854775808 ->
+  sum_exact (committee_list cap chain dlg vals) < two64 ->
   total vs = sum_exact (committee_list cap chain dlg vals) /\
   maj23 vs = 2 * total vs / 3 + 1 /\ total vs <> 0 /\
   num vs = N.of_nat (length (committee_list cap chain dlg vals)).
@@ -48,7 +49,7 @@ Print Assumptions C13_threshold.
 (* The executable model (wrapping sum, generated threshold) coincides with the specification reading used by the
    violation search (exact sum, floor(2T/3)+1). *)
 Theorem C13_model_is_spec : forall cap chain dlg vals,
-  sum_exact (committee_list cap chain dlg vals) < 9223372036854775808 ->
+  sum_exact (committee_list cap chain dlg vals) < two64 ->
   get_validator_set cap chain dlg vals = spec_validator_set cap chain dlg vals.
 Proof. exact model_eq_spec. Qed.
 Print Assumptions C13_model_is_spec.
@@ -59,8 +60,8 @@ Theorem C13_error_iff_no_power : forall cap chain dlg vals,
 Proof. exact none_iff_zero_power. Qed.
 Print Assumptions C13_error_iff_no_power.
 
-Theorem C13_threshold_wraps_refuted : minimumMaj23 9223372036854775808 = 1.
-Proof. exact minimumMaj23_wraps. Qed.
+Theorem C13_threshold_exact_at_2_63 : minimumMaj23 9223372036854775808 = 2 * 9223372036854775808 / 3 + 1.
+Proof. exact minimumMaj23_at_2_63. Qed.
 
 (* ---- non-vacuity: a population with a tie at the cap boundary, a paused, an unstaking, a delegate and a
    foreign-chain validator *)
